@@ -352,7 +352,22 @@ def action_and_edge_ranges(ctx):
             st = _fill_value(k.value, env2)
     if not nv or not st:
         raise AnalysisError("edge-index space: fill values not recognised")
-    nvl, stl = linear(nv[0], env2), linear(st[0], env2)
+    def res(e):
+        """local aliases and module-level numeric constants expanded"""
+        import copy as _copy
+
+        x = ctx.norm.xexpr(gos, e)
+
+        class _K(ast.NodeTransformer):
+            def visit_Name(self, n):
+                v = _module_const(ctx, gos, n)
+                if v is not n and (isinstance(v, ast.Constant) or (isinstance(v, ast.UnaryOp) and isinstance(v.operand, ast.Constant))):
+                    return _copy.deepcopy(v)
+                return n
+
+        return _K().visit(x)
+
+    nvl, stl = linear(res(nv[0]), env2), linear(res(st[0]), env2)
     if nvl is None or stl is None or not set(stl) <= {1}:
         raise AnalysisError("edge-index space: not linear")
     hi = sub({**nvl, 1: nvl.get(1, 0) + stl.get(1, 0)}, {1: 1})
@@ -478,6 +493,8 @@ def key_agreement(ctx):
         for n in own_nodes(fi.node):
             if isinstance(n, ast.Dict):
                 for k in n.keys:
+                    if isinstance(k, ast.Name):
+                        k = _module_const(ctx, fi, k)  # a module-level key constant
                     if isinstance(k, (ast.Attribute, ast.Constant)):
                         lit.add(ast.unparse(k))
             its = []
@@ -487,6 +504,17 @@ def key_agreement(ctx):
                 its = [(g.iter, g.target, n) for g in n.generators]
             for it, tgt, scope in its:
                 src = ctx.norm.xtext(fi, it).replace(" ", "")
+                # a shared private generator that yields (<feature type>.value, matrix)
+                itx = ctx.norm.xexpr(fi, it)
+                if isinstance(itx, ast.Call) and isinstance(itx.func, ast.Attribute) and isinstance(itx.func.value, ast.Name) and itx.func.value.id == "self":
+                    h = repo.method(single, itx.func.attr)
+                    if h is not None:
+                        for lp in own_nodes(h.node):
+                            if isinstance(lp, ast.For) and ast.unparse(lp.iter).replace(" ", "").endswith("composite_observer.features.items()"):
+                                ft = lp.target.elts[0].id if isinstance(lp.target, ast.Tuple) and isinstance(lp.target.elts[0], ast.Name) else None
+                                ys = [y for y in ast.walk(lp) if isinstance(y, ast.Yield) and isinstance(y.value, ast.Tuple) and y.value.elts]
+                                if ft and ys and all(ast.unparse(y.value.elts[0]) == f"{ft}.value" for y in ys):
+                                    feat.add("composite_observer.features:<feature_type>.value")
                 if src.endswith("composite_observer.features.items()") or src.endswith("composite_observer.features"):
                     first = tgt.elts[0] if isinstance(tgt, ast.Tuple) else tgt
                     if isinstance(first, ast.Name) and any(
@@ -557,6 +585,27 @@ def _fill_values(ctx, ff, f, pv):
             if not others:
                 return _module_const(ctx, f, pv.args[1]), mask
         return None, None
+    # (1c) a local filled under a test on the key (an inlined helper):
+    #      if key == <removed-nodes key>: v = True  else: v = -1
+    if isinstance(pv, ast.Name):
+        default = mask = None
+        for n in own_nodes(ff.node):
+            if not isinstance(n, ast.If):
+                continue
+            tt = " ".join(ast.unparse(_module_const(ctx, f, x)) for x in ast.walk(n.test) if isinstance(x, (ast.Name, ast.Attribute)))
+            if "REMOVED_NODES" not in tt or not (isinstance(n.test, ast.Compare) and isinstance(n.test.ops[0], (ast.Eq, ast.NotEq))):
+                continue
+            def val_in(block):
+                for st in block:
+                    for m in ast.walk(st):
+                        if isinstance(m, ast.Assign) and any(isinstance(t, ast.Name) and t.id == pv.id for t in m.targets):
+                            return _module_const(ctx, f, m.value)
+                return None
+            a, b = val_in(n.body), val_in(n.orelse)
+            if a is not None and b is not None:
+                mask, default = (a, b) if isinstance(n.test.ops[0], ast.Eq) else (b, a)
+        if default is not None and mask is not None:
+            return default, mask
     # (2) helper call / conditional expression
     tests = []
     if isinstance(pv, ast.Call):
@@ -606,7 +655,20 @@ def padding(ctx):
     if not fw or not any(k.arg == "padding_value" for k in fw[0].keywords):
         chk.violation("R18.e", f, fw[0] if fw else None, "the per-key fill value is not passed to add_padding")
     ap = repo.find_function("add_padding")
-    sl = [n for n in own_nodes(ap.node) if isinstance(n, ast.Call) and isinstance(n.func, ast.Name) and n.func.id == "slice"]
+    # the block of the output the data is copied into: `out[<idx>] = array`,
+    # <idx> expanded through local aliases and one-expression helpers
+    apf = ctx.norm.flat(ap)
+    stores = [
+        n for n in own_nodes(apf.node)
+        if isinstance(n, ast.Assign) and len(n.targets) == 1 and isinstance(n.targets[0], ast.Subscript)
+        and ctx.norm.xtext(apf, n.value) == ap.params[0]
+    ]
+    sl = []
+    for st in stores:
+        idx = ctx.norm.xexpr(apf, st.targets[0].slice)
+        sl += [n for n in ast.walk(idx) if isinstance(n, ast.Call) and isinstance(n.func, ast.Name) and n.func.id == "slice"]
+    if not sl:
+        sl = [n for n in own_nodes(ap.node) if isinstance(n, ast.Call) and isinstance(n.func, ast.Name) and n.func.id == "slice"]
     if len(sl) != 1:
         raise AnalysisError("add_padding: slice construction not recognised")
     a0 = sl[0].args[0] if len(sl[0].args) >= 2 else ast.Constant(0)
@@ -677,8 +739,10 @@ def freshness(ctx):
     def _pad_assigns(stmts):
         out = []
         for st in stmts:
-            if isinstance(st, ast.Assign) and isinstance(st.targets[0], ast.Subscript) and isinstance(st.value, ast.Call) and (dotted(st.value.func) or "") == "add_padding":
-                out.append(st)
+            if isinstance(st, ast.Assign) and isinstance(st.targets[0], ast.Subscript):
+                v = ctx.norm.xexpr(f, st.value)  # `padded = add_padding(...); obs[key] = padded`
+                if isinstance(v, ast.Call) and (dotted(v.func) or "") == "add_padding":
+                    out.append(st)
             elif isinstance(st, ast.If) and "isinstance" in ast.unparse(st.test) and "ndarray" in ast.unparse(st.test) and not st.orelse:
                 out += _pad_assigns(st.body)
         return out
